@@ -60,7 +60,15 @@ func journalDriver(args []string) (*Summary, error) {
 	}
 	r := rand.New(rand.NewSource(*fl.seed))
 	for i := 0; i < *fl.gen; i++ {
-		run(fmt.Sprintf("gen-%d-%d", *fl.seed, i), jrn.Gen(r, *nFeeds, *nTrips, *nStops))
+		trips := *nTrips
+		if i%4 == 3 { // more trips than suffixes: the same trip id runs with several start times
+			trips += 4
+		}
+		run(fmt.Sprintf("gen-%d-%d", *fl.seed, i), jrn.Gen(r, *nFeeds, trips, *nStops))
+		s.Counters["generated"]++
+	}
+	if *fl.gen > 0 { // a few feeds of many trips (more than any fixed-size table a builder might pre-allocate), stop 0 included
+		run(fmt.Sprintf("gen-%d-wide", *fl.seed), jrn.Gen(r, 5, 150, 5))
 		s.Counters["generated"]++
 	}
 	if jrn.HookMissingRuns > 0 {
